@@ -25,7 +25,7 @@ CFG = {
                  "C07_min_ada_fallback_overestimates", "C07_out_size_decomposition", "C07_out_size_is_schema_encoding", "C07_out_size_is_standalone_schema_encoding", "C07_min_ada_for_output_sound",
                  "C07_admission", "C07_value_size", "C07_tx_size", "C07_tx_size_encoding", "C07_collateral_return",
                  "C07_collateral_return_value_size_refuted", "C07_output_builder_helper", "C07_output_builder_helper_refuted",
-                 "C07_change_outputs_meet_min", "C07_change_on_builder_model", "C07_concrete_oracle_instance", "C07_select_and_change_on_builder_model", "C07_collateral_return_entry_point", "C07_pack_bundles_fit", "C07_pack_single_asset_premise_needed", "C07_topup_refuted", "C07_topup_conditional"],
+                 "C07_change_outputs_meet_min", "C07_change_on_builder_model", "C07_concrete_oracle_instance", "C07_refused_add_leaves_builder_unchanged", "C07_select_and_change_on_builder_model", "C07_collateral_return_entry_point", "C07_pack_bundles_fit", "C07_pack_single_asset_premise_needed", "C07_topup_refuted", "C07_topup_conditional"],
     "allowed_axioms": [],
     "compare": "exact",
     "nontrivial": _nontrivial,
